@@ -16,11 +16,13 @@ Qed.
 Lemma resolve_all_keys o g : qgood o -> (forall x, In x g -> In x (ar_keys (o_arena o))) -> exists ts, resolve_all o g = Ok ts.
 Proof. intros G H. unfold resolve_all. apply mapM_all_Ok. intros x Hx. apply (resolve_key o x G (H x Hx)). Qed.
 
-Theorem builder_walk_returns icf s codes o : run_script icf s = Ok (codes, Ok o) -> exists d, dump_onto o = Ok d.
+(* the walk returns on EVERY ontology with exact caches, children = parents^-1, inherited annotation
+   sets and records whose direct terms are terms of the ontology *)
+Theorem wellformed_walk_returns o : src_ok o -> ann_ok o ->
+  (forall k r d, In r (o_records k o) -> In d (a_hpos r) -> In d (ar_keys (o_arena o))) ->
+  exists d, dump_onto o = Ok d.
 Proof.
-  intros Hs. pose proof (run_script_src_ok icf s codes o Hs) as S. pose proof (so_q o S) as G. pose proof (q_wf o G) as W.
-  destruct (run_script_ann_ok icf s codes o Hs) as [_ A].
-  pose proof (run_script_direct_in_keys icf s codes o Hs) as DK.
+  intros S A DK. pose proof (so_q o S) as G. pose proof (q_wf o G) as W.
   (* every term *)
   assert (forall t, In t (ar_terms (o_arena o)) -> exists dt, dump_term o t = Ok dt) as HT.
   { intros t Ht. unfold dump_term.
@@ -51,4 +53,12 @@ Proof.
   destruct (mapM_all_Ok (dump_annot o) (sort_by a_id (o_orpha o))) as [d3 ->];
     [intros r Hr; apply (HR KOrpha), (sort_by_In a_id _ r), Hr|]. cbn [bind].
   eexists. reflexivity.
+Qed.
+
+Theorem builder_walk_returns icf s codes o : run_script icf s = Ok (codes, Ok o) -> exists d, dump_onto o = Ok d.
+Proof.
+  intros Hs. apply wellformed_walk_returns.
+  - apply (run_script_src_ok icf s codes o Hs).
+  - apply (run_script_ann_ok icf s codes o Hs).
+  - apply (run_script_direct_in_keys icf s codes o Hs).
 Qed.
